@@ -14,7 +14,9 @@ ASSUMPTIONS = [
 ADAPTERS = ["reqwest", "reqwest_blocking", "curl", "ureq"]
 STATUSES = [200, 201, 302, 400, 401, 403, 404, 429, 500, 503]
 CTS = [None, b"application/json", b"text/plain; charset=utf-8", b"Application/JSON"]
-REPLY_BODIES = [b"", b"{\"error\":\"invalid_grant\",\"error_description\":\"d\"}", bytes(range(256)), b"\x00\xff\x00\xff", b"x" * 70000, b"{\"access_token\":\"t\",\"token_type\":\"bearer\"}"]
+REPLY_BODIES = [b"", b"{\"error\":\"invalid_grant\",\"error_description\":\"d\"}", bytes(range(256)), b"\x00\xff\x00\xff", b"x" * 70000, b"{\"access_token\":\"t\",\"token_type\":\"bearer\"}",
+                # bodies that start like something a client might sniff and rewrite: byte-order marks, compression magics
+                b"\xef\xbb\xbf{\"error\":\"invalid_grant\"}", b"\xef\xbb\xbf", b"\xff\xfe{\x00}\x00", b"\x1f\x8b\x08\x00binary", b"\x78\x9c\x03\x00", b"\r\n\r\n{}", b" {} "]
 REQ_BODIES = [b"grant_type=authorization_code&code=c", b"a=" + b"b" * 2000, b"a=" + b"%41" * 25000, bytes(range(256))]
 FRAMINGS = ["cl", "chunked", "close"]
 PATHS = ["/token", "/t?x=1&y=%20z", "/"]
